@@ -396,6 +396,12 @@ Proof.
 Qed.
 Hint Resolve sound_tight_rows : snd.
 
+Lemma sound_write_lin code x y : sound (write_lin code x y).
+Proof. unfold write_lin. snd. Qed.
+Lemma sound_grad_zero_width code rx ry rh : sound (grad_zero_width code rx ry rh).
+Proof. unfold grad_zero_width. snd. apply sound_mapM. intros. apply sound_write_lin. Qed.
+Hint Resolve sound_write_lin sound_grad_zero_width : snd.
+
 Lemma keeps_fold_zact c0 s : st_wf s ->
   keeps s (fold_left (fun s i => if flag c0 (2 ^ i) then zact_set s (i + 1) false else s) [0; 1; 2; 3] s).
 Proof.
@@ -460,6 +466,19 @@ Proof.
   intros Hq; inversion Hq; subst. apply be_val_nonneg. eapply rd_nonneg; eauto.
 Qed.
 
+Lemma keeps_screen wh s : st_wf s -> keeps s (set_screen s wh).
+Proof. intros; apply keeps_same; auto. Qed.
+Lemma keeps_reqrs b s : st_wf s -> keeps s (set_reqrs s b).
+Proof. intros; apply keeps_same; auto. Qed.
+Lemma keeps_fold_screen (g : list Z -> bool) (wh : list Z -> Z * Z) l : forall s, st_wf s ->
+  keeps s (fold_left (fun s r => if g r then set_screen s (wh r) else s) l s).
+Proof.
+  induction l as [|r l IH]; intros s H; cbn [fold_left]; [now apply keeps_refl|].
+  destruct (g r); [|now apply IH].
+  pose proof (keeps_screen (wh r) s H) as K. specialize (IH (set_screen s (wh r)) (proj1 K)).
+  destruct IH as (I1 & I2 & I3). split; [exact I1|split; [now rewrite I2|now rewrite I3]].
+Qed.
+
 Lemma sound_do_rect : sound do_rect.
 Proof.
   unfold do_rect.
@@ -469,7 +488,12 @@ Proof.
   apply (sound_bind_P (fun h => 0 <= h)); [auto with snd|intros; eapply rd_u16_nonneg; eauto|intros h Hh].
   apply sound_bind; [auto with snd|intros enc].
   snd; try (apply sound_resize; assumption);
-    try (apply sound_upd; intros; now apply keeps_canfur).
+    try (apply sound_upd; intros; now apply keeps_canfur);
+    try (apply sound_upd; intros; now apply keeps_reqrs);
+    try (apply sound_upd; intros s0 Hs0;
+         apply (keeps_fold_screen (fun r => negb (be_val (firstn 4 r) =? 0) && negb (be_val (firstn 2 (skipn 8 r)) =? 0)
+                                            && negb (be_val (firstn 2 (skipn 10 r)) =? 0))
+                                  (fun r => (be_val (firstn 2 (skipn 8 r)), be_val (firstn 2 (skipn 10 r))))); exact Hs0).
 Qed.
 
 Hint Resolve sound_do_rect : snd.
